@@ -579,14 +579,20 @@ func genValue(t *rapid.T, depth int, withGo bool) V {
 // Arg is one argument of a generated call: a value and how it reaches the call.
 type Arg struct {
 	V    V      `json:"v"`
-	Prov string `json:"prov"` // lit | var | go
+	Prov string `json:"prov"` // lit | var | go, optionally followed by a hop the value takes before it is used: >elem | >mapv | >ret
 }
 
 func genProv(t *rapid.T, v V) string {
-	if !hasLit(v) {
-		return "go"
+	p := "go"
+	if hasLit(v) {
+		p = rapid.SampledFrom([]string{"lit", "lit", "var", "go"}).Draw(t, "prov")
 	}
-	return rapid.SampledFrom([]string{"lit", "lit", "var", "go"}).Draw(t, "prov")
+	// the value may reach the builtin through a container or a function result: an element of an untyped
+	// list, an entry of an untyped map, the result of a script function (it is the same value there)
+	if rapid.IntRange(0, 3).Draw(t, "hop?") == 0 {
+		p += rapid.SampledFrom([]string{">elem", ">mapv", ">ret"}).Draw(t, "hop")
+	}
+	return p
 }
 
 // script assembles source text and host definitions for a call with args.
@@ -595,6 +601,8 @@ type script struct {
 	pre   []string
 	defs  []string // description of host definitions (for the distinctness key)
 	nvars int
+	// lastGo: the name under which the last host-defined argument was bound
+	lastGo string
 }
 
 func newScript() *script {
@@ -605,6 +613,30 @@ func newScript() *script {
 
 // argExpr returns the expression text for a; host values are defined on the way.
 func (s *script) argExpr(a Arg) string {
+	prov, hop := a.Prov, ""
+	if i := strings.Index(prov, ">"); i >= 0 {
+		prov, hop = a.Prov[:i], a.Prov[i+1:]
+	}
+	base := s.baseExpr(Arg{V: a.V, Prov: prov})
+	if hop == "" {
+		return base
+	}
+	name := fmt.Sprintf("h%d", s.nvars)
+	s.nvars++
+	switch hop {
+	case "elem":
+		s.pre = append(s.pre, name+" = [0, "+base+"]")
+		return name + "[1]"
+	case "mapv":
+		s.pre = append(s.pre, name+" = {\"k\": "+base+"}")
+		return name + ".k"
+	default:
+		s.pre = append(s.pre, name+" = func() { return "+base+" }")
+		return name + "()"
+	}
+}
+
+func (s *script) baseExpr(a Arg) string {
 	switch a.Prov {
 	case "lit":
 		return lit(a.V)
@@ -621,6 +653,7 @@ func (s *script) argExpr(a Arg) string {
 			panic(err)
 		}
 		s.defs = append(s.defs, name+"="+descr(a.V))
+		s.lastGo = name
 		return name
 	}
 }
